@@ -1,6 +1,7 @@
 """C16 GSL bindings: every registered function x argument lattice x request mode x dig configuration;
 oracle = determinism, no silent NaN, derivatives vs. central differences of the same binding."""
 import json, os, subprocess, sys
+from concurrent.futures import ThreadPoolExecutor
 import vbuild, vcheck
 
 PID = 'C16'
@@ -18,23 +19,58 @@ def build():
     return vbuild.link('c16_gsl', objs, VARIANT, ['-lgsl', '-lgslcblas', '-lm'])
 
 
+H_SHORT_MS = 200      # sharded pass: CPU horizon of a single binding call
+H_LONG_MS = 15000     # confirmation pass
+
+
+def confirm(binary, rec):
+    """Phase 2: one tuple that exceeded the short horizon, re-run with the long horizon in --lite mode."""
+    e = dict(os.environ)
+    e.update(ENV)
+    e['LC_ALL'] = 'C'
+    p = subprocess.run([binary, '--horizon-ms', str(H_LONG_MS), '--lite', '--one', rec['fn']] + rec['replay']['x'],
+                       capture_output=True, text=True, env=e, errors='replace')
+    return (p.returncode, p.stdout, p.stderr)
+
+
 def main(tier, seed):
     chk = vcheck.Check(PID, tier, 'exploration', seed)
     binary = build()
-    args = ['--thorough'] if tier == 'thorough' else []
+    args = ['--horizon-ms', str(H_SHORT_MS)] + (['--thorough'] if tier == 'thorough' else [])
     res = vcheck.run_shards(binary, 16, args, env=ENV, timeout=3000)
     vcheck.absorb(chk, res)
 
-    # per-function records (one per shard and function) -> totals per function
-    funcs = {}
+    # per-function records (one per shard and function) -> totals per function; tuples over the short horizon
+    funcs, slow = {}, {}
     for rc, out, err in res:
         for r in vcheck.parse_jsonl(out):
+            if r.get('type') == 'slow':
+                slow.setdefault((r['fn'], r['n']), []).append(r)
             if r.get('type') != 'func':
                 continue
             f = funcs.setdefault((r['name'], r['arity']), dict(r, tuples=0, cases=0, noerr=0, err=0, d1_judged=0,
                                                                d2_judged=0, d1_unstable=0, d2_unstable=0))
             for k in ('tuples', 'cases', 'noerr', 'err', 'd1_judged', 'd2_judged', 'd1_unstable', 'd2_unstable'):
                 f[k] += r[k]
+
+    # ---- phase 2: per function, the first (quick) / first, middle and last (thorough) tuple that exceeded the
+    # short horizon is re-run with the long horizon: no return -> violation; return -> NaN/unset clauses judged.
+    jobs = []
+    for key in sorted(slow):
+        rs = sorted(slow[key], key=lambda r: r['t'])
+        idx = [0] if tier == 'quick' else sorted(set([0, len(rs) // 2, len(rs) - 1]))
+        jobs += [rs[i] for i in idx]
+    with ThreadPoolExecutor(max_workers=vcheck.NCPU) as ex:
+        res2 = list(ex.map(lambda r: confirm(binary, r), jobs))
+    before = chk.cov.get('tuples', 0)
+    vcheck.absorb(chk, res2, what='confirmation run')
+    nslow = sum(len(v) for v in slow.values())
+    chk.set('tuples_over_short_horizon', nslow)
+    chk.set('tuples_over_short_horizon_by_function', {k[0]: len(v) for k, v in sorted(slow.items())})
+    chk.set('tuples_rerun_with_long_horizon', len(jobs))
+    chk.set('tuples_rerun_returned', chk.cov.get('tuples', 0) - before)
+    chk.set('tuples_not_judged_over_short_horizon', nslow - len(jobs))
+
     names = set(n for n, _ in funcs)
     by_arity = {}
     for (n, a), f in funcs.items():
@@ -45,15 +81,17 @@ def main(tier, seed):
     chk.set('functions_with_integer_positions', sum(1 for f in funcs.values() if f['int_pos']))
     chk.set('functions_with_judged_first_derivative', sum(1 for f in funcs.values() if f['d1_judged']))
     chk.set('functions_with_judged_second_derivative', sum(1 for f in funcs.values() if f['d2_judged']))
+    chk.set('tuple_space', sum(f['space'] for f in funcs.values()))
     chk.cov['evaluations'] = chk.cov.get('cases', 0)
     vcheck.finalize_classes(chk)
 
     # ---- vacuity guards
     if len(names) < 300 or chk.cov.get('functions_registered', 0) < 300:
         chk.broken.append('only %d functions registered/explored (expected ~343)' % len(names))
-    for (n, a), f in funcs.items():
-        if f['tuples'] != f['space']:
-            chk.broken.append('%s: %d of %d tuples executed' % (n, f['tuples'], f['space']))
+    for (n, a), f in sorted(funcs.items()):
+        if f['tuples'] + len(slow.get((n, a), [])) != f['space']:
+            chk.broken.append('%s: %d executed + %d over the horizon of %d tuples' % (n, f['tuples'],
+                              len(slow.get((n, a), [])), f['space']))
             break
     small = [f for f in funcs.values() if f['arity'] in (1, 2) and not f['random']]
     judged = [f for f in small if f['d1_judged'] > 0]
@@ -67,34 +105,44 @@ def main(tier, seed):
     if chk.cov.get('d1_ok', 0) == 0 or chk.cov.get('d2_ok', 0) == 0:
         chk.broken.append('no derivative comparison succeeded at all')
 
-    chk.set('rule', 'every function registered through Addfunc x every tuple of the per-position lattice (all tuples for '
-            'arity <= 2; arity 3: all tuples in thorough, all tuples of a 9-value sub-lattice in quick; arity >= 4: '
-            'pairwise-complete orthogonal array OA(289, arity, 17, 2)) x mode {value, derivs, derivs+hes} x dig '
-            'configuration {integer positions constant, nothing constant, only x_i active}; every case is called '
-            'twice. evaluations = cases (tuple x mode x dig); a class is (function, mode, outcome) or (function, '
-            'derivative order, finite-difference verdict).')
-    chk.set('bounds', {'lattice': LATTICE, 'integer_positions_add': [5],
-                       'quick_arity3_lattice': [-2.5, -1, -1e-8, 0, 0.5, 1, 2.5, 1e8, 'NaN'],
-                       'fd_steps': ['|x|*2^-10', '|x|*2^-14', '2^-10', '2^-14'],
-                       'accept': '1e-4 rel + 1e-7 abs', 'violation_margin': '1e-3 rel + 1e-6 abs',
-                       'cpu_horizon_per_call_s': 10, 'variant': VARIANT})
+    chk.set('rule', 'every function registered through Addfunc x every tuple of the per-position lattice x mode {value, '
+            'derivs, derivs+hes} x dig configuration {integer positions constant, nothing constant, only x_i active}; '
+            'every case is called twice. quick: all tuples for arity <= 3, pairwise-complete orthogonal array '
+            'OA(289, arity, 17, 2) for arity 4, 6, 9. thorough: all tuples of a 27-value lattice for arity <= 2, all '
+            'tuples of the 13/14-value lattice for arity 3 and 4, for arity 6 and 9 the orthogonal array plus all tuples '
+            'of a 5-value core per position. evaluations = cases (tuple x mode x dig); a class is (function, mode, '
+            'outcome) or (function, derivative order, finite-difference verdict). A tuple in which a single call needs '
+            'more than %d ms CPU is not judged in the sharded pass; per function the first (quick) / first, middle and '
+            'last (thorough) such tuple is re-run with a %d s horizon.' % (H_SHORT_MS, H_LONG_MS // 1000))
+    chk.set('bounds', {'lattice': LATTICE, 'integer_positions': 'lattice with 1e8 replaced by 1000, plus 5',
+                       'thorough_lattice_arity_le_2': [-10, -2.5, -1.5, -1.1, -1, -0.9, -0.5, -1e-3, -1e-8, 0, 1e-8, 1e-3,
+                                                       0.1, 0.5, 0.9, 1, 1.1, 1.5, 2, 2.5, 3, 5, 10, 100, 1e4, 1e8, 'NaN'],
+                       'thorough_core_arity_ge_5': {'real': [-1, 0, 0.5, 2, 'NaN'], 'int': [-1, 0, 1, 2, 5]},
+                       'fd_steps': ['2^-10', '2^-14', '2^-24', '2^-28', '2^-37', '2^-41', '|x|*2^-10', '|x|*2^-14',
+                                    '|x|*2^-24', '|x|*2^-28'],
+                       'accept': '1e-4 rel + 1e-7 abs + 1e-9 * largest output of the call',
+                       'violation_margin': '1e-3 rel + 1e-6 abs + 1e-9 * largest output of the call',
+                       'cpu_horizon_ms': [H_SHORT_MS, H_LONG_MS], 'variant': VARIANT})
     chk.assumptions += [
         'only NaN is named by the statement: an infinite value or derivative with no Errmsg is accepted (counted as '
         'inf, not compared with finite differences)',
         'any non-null Errmsg (plain, or prefixed with \' or ") counts as "reports an error"; nothing returned by such a '
         'call is judged',
-        'a derivative is judged only if the two step sizes of a family (relative or absolute) agree with each other and, '
-        'when both families are stable, with one another; it is a violation only if it differs from all stable '
-        'estimates by more than 1e-3 rel + 1e-6 abs and matches no one-sided difference quotient; everything in '
-        'between is counted as fd_unstable / fd_marginal / one_sided_at_kink and not judged',
+        'returns normally: a single call that consumes more than 15 CPU seconds is treated as not returning; the '
+        'slowest returning calls measured (order/parameter 1e8 in O(n) recurrences) need 0.6-4.3 s',
+        'a derivative is refuted only by a step family whose two steps agree with each other, lie above the rounding '
+        'noise of the values and see a smooth function (midpoint defect shrinks >= 64x), when all such families agree; '
+        'it must differ by more than 1e-3 rel + 1e-6 abs + 1e-9 x largest output of the call from every estimate and '
+        'match no one-sided quotient; everything in between is fd_unstable / fd_marginal / one_sided_at_kink, not judged',
         'partials for positions marked constant in dig are not requested, hence never judged; derivs/hes are '
         'pre-filled with a finite sentinel, an active slot still holding it with Errmsg==NULL is "an arbitrary number"',
         'Hessian layout is the row-wise upper triangle used by test/gsl-test.cc (identical to ASL\'s column-wise '
         'layout for n <= 2)',
         'integer-only positions are discovered from the binding itself (a non-integer there is always rejected with '
-        '"can\'t be represented as"); no differentiation with respect to them',
+        '"can\'t be represented as"); no differentiation with respect to them; 1e8 is replaced by 1000 there (O(n) '
+        'recurrences: 0.6-2.3 CPU seconds per call)',
         'RANDOM_VALUED functions are exempt from the bit-determinism clause only',
-        'exhaustive refers to the stated tuple lattice; within a tuple "nearby" is reduced to 4 step sizes',
+        'exhaustive refers to the stated tuple lattice; within a tuple "nearby" is reduced to the 10 step sizes',
         'GSL_RNG_TYPE/GSL_RNG_SEED are pinned in the environment of the harness',
     ]
     return chk.finish()
@@ -105,7 +153,8 @@ def replay(path):
     rp = r['replay']
     binary = build()
     e = dict(os.environ); e.update(ENV)
-    p = subprocess.run([binary, '--one', rp['fn']] + [str(v) for v in rp['x']], capture_output=True, text=True, env=e)
+    p = subprocess.run([binary, '--horizon-ms', str(H_LONG_MS), '--one', rp['fn']] + [str(v) for v in rp['x']],
+                       capture_output=True, text=True, env=e)
     sigs = [v.get('sig') for v in vcheck.parse_jsonl(p.stdout) if v.get('type') == 'violation']
     for s in sigs:
         print('violation:', s)
